@@ -71,7 +71,9 @@ def run : Runner
     let block := txs.toArray
     let s := GetMatchedIndices bloomOps bloomSame 3000000 block (some m)
     -- the reference (unrepaired, exponential) scan, when it is affordable: the repaired scan must agree with it
-    let sref := GetMatchedIndicesRef bloomOps 200000 block (some m)
+    -- (the reference scan is exponential in the chain length: only run it on blocks of at most 12 transactions)
+    let sref := if txs.length ≤ 12 then GetMatchedIndicesRef bloomOps 200000 block (some m)
+                else { filter := some m, matched := [], outOfFuel := true }
     let idx := sortNats s.matched
     let idxTok := natsTok idx
     let bits := C09.bitsTok s.filter
